@@ -6,6 +6,7 @@ import (
 	"flag"
 	"fmt"
 	"os"
+	"runtime/debug"
 
 	"verifharness/drv"
 	_ "verifharness/mon"
@@ -46,6 +47,9 @@ func worker(args []string) {
 	onlyIndex := fs.Int64("only-index", -1, "")
 	verbose := fs.Bool("v", false, "")
 	fs.Parse(args)
+	// soft heap limit: transient garbage from the decoders that buffer what the input declares must not balloon
+	// when the machine is loaded and the collector falls behind (the driver's RSS cap would make the run inconclusive)
+	debug.SetMemoryLimit(6 << 30)
 	m := drv.Lookup(*prop)
 	if m == nil {
 		fmt.Fprintf(os.Stderr, "no monitor for %q\n", *prop)
